@@ -51,6 +51,18 @@ def generate(seed, index, tier):
     scn['crash_sample'] = rng.random()
     # the batch transaction must protect whichever database is evolved
     scn['alias'] = 'other' if rng.random() < 0.25 else 'default'
+    # a second app gains a model in the same upgrade (one batch creating
+    # models for two apps)
+    P = scn['project']
+    if 'vb' in P['apps'] and rng.random() < 0.6:
+        taken = {m['name'] for m in P['apps']['vb']['v0']}
+        name = [n for n in ('Zed', 'Part', 'Node') if n not in taken][0]
+        P['apps']['vb']['steps'] = [{'evos': [{
+            'label': '_nm', 'unlisted': True, 'hinted_file': True,
+            'mutations': [{'op': 'NewModel', 'model': {
+                'name': name, 'fields': [{'name': 'z', 'kind': 'Integer',
+                                          'attrs': {'null': True}}],
+                'meta': {}}}]}]}]
     return scn
 
 
